@@ -215,7 +215,15 @@ fn c03_session(ctx: &Ctx, rng: &mut Rng, st: &mut Stats, session_no: u64) {
             }
             8 => {
                 script.push("ucinewgame".into());
-                if eng.command("ucinewgame", Duration::from_secs(30)).is_err() {
+                // half of the time no isready follows ucinewgame: the next command reaches the engine at once
+                // (whether an isready then follows the position command is decided independently below)
+                let r = if rng.chance(1, 2) {
+                    st.bump("ucinewgame_sent_without_isready");
+                    eng.send("ucinewgame").map(|_| vec![])
+                } else {
+                    eng.command("ucinewgame", Duration::from_secs(30))
+                };
+                if r.is_err() {
                     break;
                 }
                 searched_before = false;
